@@ -120,6 +120,9 @@ struct Ctx {
     /// per node: key -> (node clock when a fetch of that key was lost, qualifying re-advertisements seen since its timeout)
     lost_fetch: Vec<BTreeMap<u64, (u64, u64)>>,
     slow_histories: u64,
+    /// per node: fetches the node was seen to schedule and that the harness has not seen end:
+    /// (holder, key, record-type token, node clock when scheduled)
+    outstanding: Vec<Vec<(u64, u64, String, u64)>>,
 }
 
 fn join(v: Vec<String>) -> String {
@@ -226,15 +229,27 @@ impl Ctx {
         // entries that were not in flight before the step first (an entry can leave and re-enter within one step)
         fresh.sort_by_key(|e| (ogf_before.contains(e), e.clone()));
         let mut out = vec![];
-        for batch in &log.sched {
-            for (h, k) in batch {
+        for (bi, batch) in log.sched.iter().enumerate() {
+            // `!`: the batch was returned to the `FetchCompleted` handler after a `PutLocalRecord` of the same step
+            let mark = if log.sched_after_put.get(bi).copied().unwrap_or(false) { "!" } else { "" };
+            for (pi, (h, k)) in batch.iter().enumerate() {
                 let hn = sim.peer_ids.get(h).copied().unwrap_or(9999);
                 let kn = sim.key_ids.get(&k.to_vec()).copied().unwrap_or(9999);
+                let at_event = log.sched_types.get(bi).and_then(|b| b.get(pi)).cloned().flatten();
                 let t = match fresh.iter().position(|(fk, _, fh)| *fk == kn && *fh == hn) {
-                    Some(p) => fresh.remove(p).1,
-                    None => "?".into(),
+                    Some(p) => {
+                        let t = fresh.remove(p).1;
+                        match &at_event {
+                            Some(te) => sim.book.type_token(kn, te),
+                            None => t,
+                        }
+                    }
+                    None => match &at_event {
+                        Some(te) => sim.book.type_token(kn, te),
+                        None => "?".into(),
+                    },
                 };
-                out.push(format!("{hn}:{kn}:{t}"));
+                out.push(format!("{hn}:{kn}:{t}{mark}"));
             }
         }
         out
@@ -265,8 +280,72 @@ impl Ctx {
     }
 }
 
+/// scheduled tokens as printed in the result line (the `!` marks belong to the choice witness only)
+fn unmarked(sched: &[String]) -> Vec<String> {
+    sched.iter().map(|t| t.trim_end_matches('!').to_string()).collect()
+}
+
 fn fail(out: &mut Out, ctx: &Ctx, clause: &str, what: String) {
     out.oracle_fail(clause, &ctx.history.join(" ; "), &what);
+}
+
+/// Oracle bookkeeping (C08 "every fetch leaves the in-flight set when the record arrives ... or times out, a timed-out
+/// holder being reported"), independent of the model: what node `i` scheduled, wrote and reported in one step.
+/// A reported holder must have a fetch that was scheduled at least FETCH_TIMEOUT ago and that the harness has not seen
+/// end (its record arrived and was acceptable, or the key was written).
+fn track_fetches(ctx: &mut Ctx, out: &mut Out, i: usize, sched: &[String], log: &StepLog, seeded_key: Option<u64>) {
+    const FETCH_TIMEOUT_S: u64 = 20;
+    let now = ctx.clock[i];
+    // the prune runs first inside `next_keys_to_fetch`: judge the report against what was outstanding before this step
+    let mut reported: Vec<u64> = log.failed.iter().map(|p| ctx.uni.peer_ids.get(p).copied().unwrap_or(9999)).collect();
+    reported.sort();
+    reported.dedup();
+    for h in &reported {
+        let justified = ctx.outstanding[i].iter().any(|(oh, _, _, t0)| oh == h && now >= *t0 + FETCH_TIMEOUT_S);
+        out.count(if justified { "fail-report:justified" } else { "fail-report:unjustified" });
+        if !justified {
+            let what = format!(
+                "node {i} reported holder {h} in FailedToFetchHolders at t={now}s, but every fetch it scheduled from {h} had its record arrive (and accepted) or its key written before FETCH_TIMEOUT; outstanding: {:?}",
+                ctx.outstanding[i]
+            );
+            fail(out, ctx, "honest_holder_never_reported", what);
+        }
+    }
+    if !reported.is_empty() {
+        ctx.outstanding[i].retain(|(_, _, _, t0)| now < *t0 + FETCH_TIMEOUT_S);
+    }
+    // a write of key k ends every fetch of k (`notify_about_new_put` removes in-flight entries by key)
+    let mut written: Vec<u64> = log.writes.iter().filter_map(|w| w.strip_prefix('W').and_then(|r| r.split('=').next()).and_then(|k| k.parse().ok())).collect();
+    written.extend(seeded_key);
+    ctx.outstanding[i].retain(|(_, k, _, _)| !written.contains(k));
+    for t in unmarked(sched) {
+        let parts: Vec<&str> = t.splitn(3, ':').collect();
+        if let [h, k, ty] = parts[..] {
+            if let (Ok(h), Ok(k)) = (h.parse::<u64>(), k.parse::<u64>()) {
+                ctx.outstanding[i].push((h, k, ty.to_string(), now));
+            }
+        }
+    }
+}
+
+/// Would an honest node accept this fetched copy (`store_replicated_in_record` returns Ok)? Judged from the contents
+/// alone: chunks and transaction sets always; a register when the local copy (if any) has the same base; a scratchpad
+/// when its counter is higher than the local one. `None`: not judged.
+fn acceptable(k: u64, fetched: &[u8], local: Option<&Vec<u8>>) -> Option<bool> {
+    let f = parse_content(&describe(k, fetched))?;
+    let l = match local {
+        Some(v) => Some(parse_content(&describe(k, v))?),
+        None => None,
+    };
+    Some(match (f, l) {
+        (Content::Chunk, None) | (Content::Chunk, Some(Content::Chunk)) => true,
+        (Content::Txs(_), None) | (Content::Txs(_), Some(Content::Txs(_))) => true,
+        (Content::Reg { .. }, None) => true,
+        (Content::Reg { alt, .. }, Some(Content::Reg { alt: a2, .. })) => alt == a2,
+        (Content::Pad(_), None) => true,
+        (Content::Pad(n), Some(Content::Pad(m))) => n > m,
+        _ => return None,
+    })
 }
 
 /// strip a trailing ` c=...` witness
@@ -363,6 +442,7 @@ fn exec_inner(ctx: &mut Ctx, out: &mut Out, ws: &[&str]) -> Option<(Option<Strin
             ctx.last_trigger = vec![None; n as usize];
             ctx.served_at = vec![BTreeMap::new(); n as usize];
             ctx.lost_fetch = vec![BTreeMap::new(); n as usize];
+            ctx.outstanding = vec![vec![]; n as usize];
             out.count("history");
             Some((None, "ok".into()))
         }
@@ -427,10 +507,11 @@ fn exec_inner(ctx: &mut Ctx, out: &mut Out, ws: &[&str]) -> Option<(Option<Strin
             let log = ctx.sim().pump(i);
             ctx.note_writes(i, out);
             let sched = ctx.sched_tokens(i, &log, &before);
+            track_fetches(ctx, out, i, &sched, &log, Some(k));
             out.count(&format!("seed:{}", &c[..1]));
             let res = format!(
                 "seed sched={} fail={} | {} | wire+={}",
-                join(sched.clone()),
+                join(unmarked(&sched)),
                 fail_str(ctx, &log),
                 ctx.node_view(i),
                 ctx.wire_str(&log.new_msgs)
@@ -665,10 +746,11 @@ fn exec_inner(ctx: &mut Ctx, out: &mut Out, ws: &[&str]) -> Option<(Option<Strin
                     let log = ctx.sim().pump(i);
                     ctx.note_writes(i, out);
                     let sched = ctx.sched_tokens(i, &log, &before);
+                    track_fetches(ctx, out, i, &sched, &log, None);
                     let res = format!(
                         "drop net={} sched={} | {} | wire+={}",
                         join(log.netgets.clone()),
-                        join(sched.clone()),
+                        join(unmarked(&sched)),
                         ctx.node_view(i),
                         ctx.wire_str(&log.new_msgs)
                     );
@@ -708,6 +790,7 @@ fn exec_inner(ctx: &mut Ctx, out: &mut Out, ws: &[&str]) -> Option<(Option<Strin
                     }
                     let log = ctx.sim().pump(i);
                     let sched = ctx.sched_tokens(i, &log, &before);
+                    track_fetches(ctx, out, i, &sched, &log, None);
                     let view = ctx.node_view(i);
                     // oracle (3): a holder outside the K closest (self + K-1 nearest known peers), or self, changes nothing
                     let close = match holder_id {
@@ -771,7 +854,7 @@ fn exec_inner(ctx: &mut Ctx, out: &mut Out, ws: &[&str]) -> Option<(Option<Strin
                             }
                         }
                     }
-                    let res = format!("rep sched={} fail={} | {} | wire+={}", join(sched.clone()), fail_str(ctx, &log), view, ctx.wire_str(&log.new_msgs));
+                    let res = format!("rep sched={} fail={} | {} | wire+={}", join(unmarked(&sched)), fail_str(ctx, &log), view, ctx.wire_str(&log.new_msgs));
                     out.nontrivial_case(&format!("{} -> {}", ctx.history.last().cloned().unwrap_or_default(), res));
                     Some((Some(join(sched)), res))
                 }
@@ -830,6 +913,38 @@ fn exec_inner(ctx: &mut Ctx, out: &mut Out, ws: &[&str]) -> Option<(Option<Strin
                     let log = ctx.sim().pump(i);
                     ctx.note_writes(i, out);
                     let sched = ctx.sched_tokens(i, &log, &before);
+                    // oracle (C08, arrival): the record an honest holder serves (the bytes it holds) arrived and an honest
+                    // node accepts it ⇒ the fetch is over: no in-flight entry for (key, the type the holder advertised for
+                    // these bytes) remains at the requester, whether or not the copy changed anything
+                    let mut arrived_ok = false;
+                    if let Some(v) = &content {
+                        let holder_holds = ctx.held.get(from as usize).and_then(|h| h.get(&kn)) == Some(v);
+                        if holder_holds {
+                            match acceptable(kn, v, had.as_ref()) {
+                                Some(true) => {
+                                    arrived_ok = true;
+                                    let changed = ctx.local_record(i, kn) != had;
+                                    out.count(if changed { "rsp:accepted:stored" } else { "rsp:accepted:nothing-to-store" });
+                                    if let Some(t) = independent_type(v) {
+                                        let tt = ctx.sim().book.type_token(kn, &t);
+                                        let left: Vec<(u64, String, u64)> = ctx.ogf_set(i).into_iter().filter(|(k, ty, _)| *k == kn && *ty == tt).collect();
+                                        if !left.is_empty() {
+                                            let what = format!(
+                                                "node {to} fetched key {kn} ({tt}) from holder {from}; the record arrived and is acceptable ({}), yet the fetch stays in flight: {left:?}",
+                                                if changed { "stored" } else { "nothing to store" }
+                                            );
+                                            fail(out, ctx, "arrived_record_leaves_inflight", what);
+                                        }
+                                        ctx.outstanding[i].retain(|(_, k, ty, _)| !(*k == kn && *ty == tt));
+                                    }
+                                }
+                                Some(false) => out.count("rsp:not-acceptable"),
+                                None => out.count("rsp:acceptability-not-judged"),
+                            }
+                        }
+                    }
+                    let _ = arrived_ok;
+                    track_fetches(ctx, out, i, &sched, &log, None);
                     let now_has = ctx.local_record(i, kn);
                     // oracle (1): a chunk fetched through replication by a node that lacked it is now held, byte-identical
                     if let Some(v) = &content {
@@ -847,7 +962,7 @@ fn exec_inner(ctx: &mut Ctx, out: &mut Out, ws: &[&str]) -> Option<(Option<Strin
                         "rsp {} net={} sched={} fail={} | {} | wire+={}",
                         join(log.writes.clone()),
                         join(log.netgets.clone()),
-                        join(sched.clone()),
+                        join(unmarked(&sched)),
                         fail_str(ctx, &log),
                         ctx.node_view(i),
                         ctx.wire_str(&log.new_msgs)
@@ -1503,6 +1618,32 @@ fn corpus(uni: &Universe) -> Vec<String> {
     ] {
         v.push(l.into());
     }
+    // C08 arrival clause (repaired defect, minimal): node 1 holds a superset register, node 0 advertises the older version;
+    // the fetched copy changes nothing — the fetch must leave the in-flight set all the same, and after FETCH_TIMEOUT the
+    // honest holder must not be reported
+    mesh2(&mut v, &[2, 4]);
+    for l in ["seed 0 2 R0.1", "seed 1 2 R0.1.2", "interval 0", "deliver 1", "deliver 2", "deliver 3", "dump", "tick 1 25", "tick 0 50", "interval 0", "deliver 4", "dump"] {
+        v.push(l.into());
+    }
+    // the same for a chunk that is held by the time its copy arrives, and for a transaction set
+    mesh2(&mut v, &[0, 4]);
+    for l in ["seed 0 0 C", "seed 0 4 T0", "seed 1 4 T0.1", "interval 0", "deliver 1", "seed 1 0 C", "deliver 2", "deliver 3", "deliver 4", "deliver 5", "dump", "tick 1 25", "tick 0 50", "interval 0", "deliver 6", "dump"] {
+        v.push(l.into());
+    }
+    // a stored reply followed by the completion notice while the same version is queued from another holder (3 nodes)
+    v.push("new 3".into());
+    v.push(rt_line(uni, 0, &[1, 2]));
+    v.push(rt_line(uni, 1, &[0, 2]));
+    v.push(rt_line(uni, 2, &[0, 1]));
+    for i in 0..3 {
+        v.push(kd_line(uni, i, &[2, 5]));
+    }
+    for l in [
+        "seed 0 2 R0.1", "seed 0 5 R0.1", "seed 1 2 R0.1", "seed 1 5 R0.1", "seed 2 2 R0.2", "seed 2 5 R0.2", "forge 0 2 2=R0.1,5=R0.1", "forge 1 2 2=R0.1,5=R0.1",
+        "deliver 1", "deliver 2", "deliver 3", "deliver 4", "deliver 5", "deliver 6", "dump",
+    ] {
+        v.push(l.into());
+    }
     v
 }
 
@@ -1527,6 +1668,7 @@ fn main() {
         served_at: vec![],
         lost_fetch: vec![],
         slow_histories: 0,
+        outstanding: vec![],
     };
     if let Some(p) = &args.replay {
         for l in common::read_lines(p) {
